@@ -143,12 +143,12 @@ theorem fold_data (es : List Elem) (acc : List Elem) (bs : Bytes) :
       simp only [ih]
       cases encodeRecord t <;> simp [List.append_assoc]
 
-theorem fold_template (es : List Elem) (acc : List Elem) (bs : Bytes) (hz : ∀ e ∈ es, valueEmpty e.2 = true) :
+theorem fold_template (es : List Elem) (acc : List Elem) (bs : Bytes) (hz : ∀ e ∈ es, elemEmpty e = true) :
     es.foldl addElemTemplate (some (acc, bs)) = some (acc ++ es, bs ++ ((es.map (·.1)).map fieldSpec).flatten) := by
   induction es generalizing acc bs with
   | nil => simp
   | cons e t ih =>
-    have he : valueEmpty e.2 = true := hz e (by simp)
+    have he : elemEmpty e = true := hz e (by simp)
     simp only [List.foldl_cons, addElemTemplate, he, if_true]
     rw [ih _ _ (fun x hx => hz x (by simp [hx]))]
     simp [List.append_assoc]
@@ -161,9 +161,9 @@ theorem add_paths_equiv_data (s : SetB) (es : List Elem) (tid : Nat) (hd : s.ty 
   simp only [SetB.addRecord, SetB.addRecordV2, hd, fold_data]
   cases encodeRecord es <;> simp
 
-/-- ... and for template sets (whose elements carry empty values, which AddRecord insists on) -/
+/-- ... and for template sets (whose elements carry empty values - zero, false, nil/"", or a float's -0.0 - which AddRecord insists on) -/
 theorem add_paths_equiv_template (s : SetB) (es : List Elem) (tid : Nat) (ht : s.ty = .template)
-    (hz : ∀ e ∈ es, valueEmpty e.2 = true) :
+    (hz : ∀ e ∈ es, elemEmpty e = true) :
     s.addRecord es tid = s.addRecordV2 es tid := by
   simp only [SetB.addRecord, SetB.addRecordV2, ht, fold_template es [] _ hz, templateRecordBytes]
   simp [List.append_assoc]
